@@ -168,10 +168,17 @@ def insertBy (x : List Nat) : List (List Nat) → List (List Nat)
 
 def sortSessions (ss : List (List Nat)) : List (List Nat) := ss.foldr insertBy []
 
-/-- group the selected nonces by resource -/
-def group (res : Nat → Nat) (ns : List Nat) : List (List Nat) :=
-  let rs := (ns.map res).eraseDups
-  sortSessions (rs.map fun r => ns.filter (res · = r))
+/-- `propsPerResource[r] = append(propsPerResource[r], prop)` -/
+def addTo (res : Nat → Nat) (n : Nat) : List (List Nat) → List (List Nat)
+  | [] => [[n]]
+  | c :: cs => if res (c.headD 0) == res n then (c ++ [n]) :: cs else c :: addTo res n cs
+
+/-- the classes of equal resource, each in delivery order -/
+def classes (res : Nat → Nat) (ns : List Nat) : List (List Nat) :=
+  ns.foldl (fun acc n => addTo res n acc) []
+
+/-- group the selected nonces by resource, sessions in canonical order -/
+def group (res : Nat → Nat) (ns : List Nat) : List (List Nat) := sortSessions (classes res ns)
 
 /-- `Execute` of the BTC executor on a delivery of nonces whose resource is `res n` -/
 def btc (res : Nat → Nat) (s : Store) (d : List Nat) : Out × Store :=
@@ -196,10 +203,11 @@ def answersFrom (ex : List Nat) (failAt : Option Nat) : Nat → List Nat → Del
 
 def answers (ex : List Nat) (ns : List Nat) (failAt : Option Nat) : Delivery := answersFrom ex failAt 0 ns
 
-/-- run a history; yields, per delivery, the answers it got and the outcome -/
-def runHist (exec : Delivery → Out) : List Nat → List Op → List (Delivery × Out)
+/-- run a history; yields, per delivery: the executed set at that time, the delivered nonces, the failing
+    lookup (if any) and the outcome -/
+def runHist (exec : Delivery → Out) : List Nat → List Op → List (List Nat × List Nat × Option Nat × Out)
   | _, [] => []
-  | ex, .deliver ns f :: r => (answers ex ns f, exec (answers ex ns f)) :: runHist exec ex r
+  | ex, .deliver ns f :: r => (ex, ns, f, exec (answers ex ns f)) :: runHist exec ex r
   | ex, .execute ns :: r => runHist exec (ns ++ ex) r
 
 /-- BTC -/
